@@ -180,6 +180,49 @@ def intruder_layer(ctx):
             return
 
 
+PARSED_TEMPLATES = [
+    ("SELECT account, number FROM #postings WHERE vp_yield('c', 1) = 1 AND number >= %s", (-1000000,), (1000000,)),
+    ("SELECT account, number, %s AS tag FROM #postings WHERE vp_yield('c', 2) = 2 AND number >= %s", ('t', 0), ('u', 5)),
+    ("SELECT vp_yield('c', 5) AS c, number + %s AS n, %s AS tag FROM #postings WHERE number > %s", (1, 'a', 0), (2, 'b', -5)),
+    ("SELECT vp_yield('x', lineno) AS y, number + %(k)s AS n FROM #postings", {'k': 1}, {'k': 2}),
+]
+
+
+def parsed_statement_layer(ctx, lk, text, entries, errors, options):
+    """ONE parsed statement executed by two threads with different parameters (on one connection, on two): each gets what
+    the statement text gives with its own parameters"""
+    from beanquery import parser
+    for qtext, pa, pb in PARSED_TEMPLATES:
+        for mode in ('shared-connection', 'separate-connections'):
+            ca = ledgers.connect(entries, errors, options)
+            conns = [ca, ca if mode == 'shared-connection' else ledgers.connect(entries, errors, options)]
+            want = serial(conns, [qtext, qtext], [pa, pb])
+            scheds = [(sc, False) for sc in sorted(set(itertools.permutations([0, 0, 1, 1])))]
+            scheds += [(tuple([0, 1] * 12), False), (tuple([1, 0] * 12), False), (tuple([0, 1] * 12), True), (tuple([1, 0] * 12), True),
+                       (tuple([0, 1, 1, 1, 0, 0] * 4), True), (tuple([1, 0, 0, 0, 1, 1] * 4), True)]
+            for sched, sy in scheds:
+                stmt = parser.parse(qtext)
+                got = run_threads(conns, [stmt, stmt], [pa, pb], sched, start_yield=sy)
+                ctx.evaluations += 1
+                ctx.count('parsed-statement:' + mode)
+                ctx.nontrivial_hashes.add(hash(('parsed', qtext, mode, sched, sy, lk)))
+                if got is None:
+                    raise RuntimeError('scheduler timed out on %r %r' % (qtext, sched))
+                if got != want:
+                    ctx.record_violation('interleaving-changes-result',
+                                         '%s, one parsed statement %r executed by two threads with parameters %r and %r, schedule %r: '
+                                         'thread results %r, serial %r' % (mode, qtext, pa, pb, sched, [g[:120] for g in got], [w[:120] for w in want]),
+                                         payload={'ledger': text, 'queries': [qtext, qtext], 'params': [pa, pb], 'schedule': sched, 'mode': mode,
+                                                  'parsed_once': True})
+                    return
+                # ... and afterwards the statement is what it was: serially it still gives the same
+                again = serial(conns, [stmt, stmt], [pa, pb])
+                if again != want:
+                    ctx.record_violation('interleaving-changes-result', 'parsed statement %r re-executed serially after the threads: %r, expected %r'
+                                         % (qtext, [g[:120] for g in again], [w[:120] for w in want]), payload={'ledger': text})
+                    return
+
+
 QUERY_TEMPLATES = [
     ("SELECT balance, vp_yield('x', lineno), balance FROM #postings", None),
     ("SELECT vp_yield('x', lineno), balance FROM #postings WHERE account ~ 'Assets'", None),
@@ -221,6 +264,9 @@ QUERY_TEMPLATES = [
     # 26-27: BALANCES / JOURNAL with a compile-phase yield inside the FROM expression, different WHERE clauses
     ("BALANCES FROM year >= vp_yield('c', 1900) WHERE account ~ 'Expenses'", None),
     ("BALANCES FROM year >= vp_yield('c', 1901) WHERE account ~ 'Assets'", None),
+    # 28-29: arithmetic whose result depends on the decimal context (quotients that do not terminate, long products)
+    ("SELECT vp_yield('x', lineno) AS y, number / 3 AS third, number / 7 * 1.000000000000000000001 AS p FROM #postings", None),
+    ("SELECT account, sum(number) / 7 AS m, vp_yield('x', count(*)) AS n, sum(number) / count(number) AS avg FROM #postings GROUP BY account ORDER BY account", None),
 ]
 QUERIES = list(QUERY_TEMPLATES)
 OUTPUT_PHASE = (8, 9)
@@ -277,9 +323,10 @@ def run(ctx):
         global QUERIES
         QUERIES = [(q.replace('{early}', marks['early']).replace('{mid}', marks['mid']).replace('{late}', marks['late']), p)
                    for q, p in QUERY_TEMPLATES]
+        parsed_statement_layer(ctx, lk, text, entries, errors, options)
         before = audit_fingerprint(shared)
         entries_before = ledgers.entries_snapshot(entries)
-        fixed = [(0, 0), (0, 3), (8, 8), (12, 13), (14, 15), (15, 16), (19, 19), (20, 21), (17, 18), (24, 25), (22, 23), (26, 27), (10, 1), (9, 9), (3, 3), (8, 9), (0, 1), (10, 2),
+        fixed = [(0, 0), (28, 29), (0, 3), (8, 8), (12, 13), (14, 15), (15, 16), (19, 19), (20, 21), (17, 18), (24, 25), (22, 23), (26, 27), (10, 1), (9, 9), (3, 3), (8, 9), (0, 1), (10, 2),
                  (11, 2), (12, 12), (13, 12), (21, 20), (17, 17)]
         pairs = rng.shuffle(list(itertools.product(range(len(QUERIES)), repeat=2)))
         if not ctx.thorough():
